@@ -130,6 +130,9 @@ SBEPPC_VARIANTS = {
     # asserts alive, libstdc++ assertions, ASan+UBSan (recoverable UBSan so one report does not mask the rest)
     "san": ["g++", "-std=c++17", "-O0", "-g1", "-fno-omit-frame-pointer",
             "-fsanitize=address,undefined", "-D_GLIBCXX_ASSERTIONS"],
+    # line-coverage build used by tools/coverage_sbeppc.sh only (VERIF_SBEPPC_OVERRIDE=cov): which generator and
+    # validator lines did the workloads of the checks actually execute?  Never used for a verdict.
+    "cov": ["g++", "-std=c++17", "-O0", "-g1", "--coverage", "-fprofile-update=atomic"],
     # coverage-guided fuzzing target, in-process pipeline (thorough C09 only)
     "fuzz": ["clang++", "-std=c++17", "-O1", "-g", "-fno-omit-frame-pointer",
              "-fsanitize=fuzzer,address,undefined", "-fno-sanitize=object-size",
@@ -148,6 +151,8 @@ def _build_info_cpp(d):
 def sbeppc(variant="rel", main_src=None):
     """Path of an sbeppc binary built from the current tree (built on demand)."""
     d = tree_dir()
+    if not main_src:
+        variant = os.environ.get("VERIF_SBEPPC_OVERRIDE", variant)
     out = os.path.join(d, "sbeppc-" + variant)
     if main_src:
         # a wrapper around main.cpp that lives in rt/: the artefact also depends on its text
@@ -254,6 +259,9 @@ def compile_driver(src_text, cfg, inc_dirs=(), dep_key="", libs=(), name="drv", 
     """Compile a driver TU.  Returns (ok, exe_path_or_None, compiler_output)."""
     d = os.path.join(tree_dir(), "drv")
     flags = cfg.flags()
+    if os.environ.get("VERIF_DRV_COV") and cfg.cxx == "g++" and not syntax_only:
+        # tools/coverage_sbepp.sh: which lines of sbepp.hpp do the drivers execute?  Never used for a verdict.
+        flags = flags + ["--coverage", "-fprofile-update=atomic"]
     key = C.sha(src_text, rt_hash(), " ".join(flags), dep_key, " ".join(inc_dirs), " ".join(libs), str(syntax_only))[:24]
     base = os.path.join(d, "%s-%s" % (name, key))
     exe, okf, errf = base + ".exe", base + ".ok", base + ".err"
@@ -289,6 +297,7 @@ def compile_driver(src_text, cfg, inc_dirs=(), dep_key="", libs=(), name="drv", 
 def gen_headers(xml_text, variant="rel", extra_args=(), files=None, schema_file="schema.xml"):
     """Run sbeppc on xml_text (plus optional extra files {relpath: text}) into a cached directory.
     Returns dict(rc, out, dir, xml_path)."""
+    variant = os.environ.get("VERIF_SBEPPC_OVERRIDE", variant)
     exe = sbeppc(variant)
     key = C.sha(xml_text, variant, " ".join(extra_args), repr(sorted((files or {}).items())))[:24]
     d = os.path.join(tree_dir(), "gen", key)
